@@ -240,6 +240,9 @@ class Aspire:
         logger.info(f"Training with {len(samples.x)} samples")
         history = self.flow.fit(samples.x, **kwargs)
         defaults = getattr(self, "_checkpoint_defaults", None)
+        if defaults:
+            # The flow changed: a copy saved earlier is out of date
+            defaults["saved_flow"] = False
         if checkpoint_path is None and defaults:
             checkpoint_path = defaults["path"]
             checkpoint_save_config = defaults["save_config"]
@@ -262,8 +265,12 @@ class Aspire:
                             # Weighted under the flow that is replaced
                             del h5_file["checkpoint"]
                         self.save_flow(h5_file)
+                        if defaults:
+                            defaults["saved_flow"] = True
                 else:
                     self.save_flow(h5_file)
+                    if defaults:
+                        defaults["saved_flow"] = True
         return history
 
     def get_sampler_class(self, sampler_type: str) -> Callable:
